@@ -1,7 +1,7 @@
 /* c14_inttostr.c - C14: integer-to-text conversion is exact for every value, base and buffer size.
  * Sanitised build: structured value set (m * 2^s and complements, powers of every base +-2, decimal digit
  * boundaries) x {signed, unsigned} x bases {2, 8, 10, 16} and {0, 1, 3, 7, 36, -1} (which mean 10) with a roomy
- * buffer, then a boundary set x every buffer length 0..70 in an exact-size heap block.
+ * buffer, then a boundary set x every buffer length 0..70 (and 12 lengths from 255 to 65537) in an exact-size heap block.
  * Unsanitised (-O2) build: quick = one value per 64-value stratum of the 32-bit space (2^26 values), thorough =
  * ALL 2^32 values, x {signed, unsigned} x bases {2, 8, 10, 16}; 64-bit: structured set.
  * Oracle: independent formatter (repeated division), truncation rule: the first min(len, n) characters, NUL iff
@@ -144,6 +144,8 @@ int main(int argc, char ** argv) {
             size_t len;
             if (!MC_CASE()) continue;
             mc_case_tag = "buffer-length"; mc_case_i[0] = (long long) vals[i]; mc_case_i[1] = bits; mc_case_i[2] = bases_all[b]; mc_case_i[3] = sg;
+            { static const size_t big[] = {255, 256, 257, 260, 300, 511, 512, 513, 1024, 2048, 65536, 65537};
+              int bi; for (bi = 0; bi < 12; bi++) { mc_case_i[4] = (long long) big[bi]; check_one(vals[i], bits, bases_all[b], sg, big[bi], 0); check_one(vals[i], bits, bases_all[b], sg, big[bi], 1); } }
             for (len = 0; len <= 70; len++) { mc_case_i[4] = (long long) len; check_one(vals[i], bits, bases_all[b], sg, len, 0); check_exact(vals[i], bits, bases_all[b], sg, len); if (len < 12) check_one(vals[i], bits, bases_all[b], sg, len, 1); }
             n_nontrivial++;
         }
